@@ -64,6 +64,24 @@ def check_pwa(o):
                     bad.append(("PWA with %s is another map" % tagv, {"maxdiff": L.maxdiff(gv, img)}, None))
             except TriangleContainmentError:
                 bad.append(("PWA with %s rejects points of its own triangles" % tagv, {}, None))
+    if c["tgt"] == "other":
+        import menpo.transform as _mt
+        from menpo.shape import PointCloud as _PC2, TriMesh as _TM2
+
+        klass = {"PiecewiseAffine": _mt.PiecewiseAffine}.get(c["cls"])
+        if klass is not None:
+            other_tl = np.array(o["other"], dtype=int) - 1
+            a_ = klass(_PC2(S.copy()), _TM2(T.copy(), trilist=other_tl))
+            b_ = klass(_PC2(S.copy()), _PC2(T.copy()))
+            inner = S.mean(axis=0)[None] * 0.5 + S[:3].mean(axis=0)[None] * 0.5
+            try:
+                if not L.close(a_.apply(inner), b_.apply(inner), TOL) or not np.array_equal(np.asarray(a_.source.trilist), np.asarray(b_.source.trilist)):
+                    bad.append(("a PWA from a plain point cloud triangulates its source differently when the TARGET carries a triangle list", {}, None))
+                b_.set_target(_TM2(T.copy(), trilist=other_tl))
+                if not L.close(b_.apply(inner), a_.apply(inner), TOL):
+                    bad.append(("a PWA retargeted to a mesh differs from the PWA built to that mesh (the triangulation depends on the history)", {}, None))
+            except TriangleContainmentError:
+                pass
     if not L.close(w.aligned_source().points, T, TOL) or abs(w.alignment_error()) > 1e-9:
         bad.append(("aligned_source / alignment_error inconsistent", {"err": w.alignment_error()}, None))
     for k in list(range(1, 6)) + [len(pts) - 1, len(pts), len(pts) + 2]:
